@@ -98,6 +98,13 @@ def run(rep):
         dict(name="C06_fixfn", configs=fixfn_configs(), acts=["grow", "grow_missing", "fix_fn", "resow", "reload", "reap_default"],
              max_steps=7, mode="sim", num=300 if q else 3000, need=["DoFixFn", "DoReSow"]),
     ]
+    # overwrite policies with data that really conflicts: the default policy refuses, overwrite=True and overwrite=False both
+    # deliver (what a direct harvest with that policy does)
+    runs.append(dict(name="C06_conflict", configs=[crop.mk([3], kind="combos", bmode="count", bval=2, farmer="harvester", cause="merge"),
+                                                   crop.mk([2], nca=1, cases=[[1], [3]], kind="combos", bmode="size", bval=3,
+                                                           farmer="harvester", cause="merge", shufSow=1)],
+                     acts=["grow_missing", "reap_default", "fix_cause", "reload"], max_steps=5, mode="bfs", need=["DoFixCause"],
+                     sample=200 if q else 2000))
     crop.drive(rep, runs, claims=lambda tag: tag.startswith(CLAIMS_PREFIX), variants=variants)
 
 
